@@ -6,11 +6,10 @@ from __future__ import annotations
 
 import ast
 
-from ..models import ModelEval, PyObj, Marker, Raised, fold
-from ..peval import Model, Unsupported, RaisedInModel, ProgramRaised
+from ..models import ModelEval, PyObj, Marker, Raised
+from ..peval import Model, Unsupported, ProgramRaised
 from ..source import AnalysisError
-from .core_models import (slice_key, ArrTok, RawTok, NdTok, QtyTok, OpTok, UnitTok, core_hooks, make_vector, vector_components, VECTOR_Q,
-                          DG_Q, DS_Q, ARRAY_Q)
+from .core_models import slice_key, ArrTok, RawTok, NdTok, QtyTok, core_hooks, make_vector, vector_components, VECTOR_Q, DG_Q, DS_Q
 from .vector_rules import FORWARDED
 
 ERR = (Unsupported, AnalysisError)
